@@ -540,14 +540,14 @@ const NX16: &[u8] = &[0, 1, 4, 5, 32, 64, 65, 128, 129, 192, 193, 196, 197, 8, 9
 const AAC: &[u8] = &[0, 1, 4, 5, 32, 64, 65, 128, 129, 192, 193, 8, 9];
 
 const PLAIN_ROBUST: &[&str] = &["none", "gz1", "gz6", "gz9", "bz", "xz1", "xz6"];
-const NX16_ROBUST: &[u8] = &[4, 5, 32, 196, 197];
-const AAC_ROBUST: &[u8] = &[4, 5, 32];
+const NX16_ROBUST: &[u8] = &[0, 1, 4, 5, 32, 64, 65, 128, 129, 192, 193, 196, 197];
+const AAC_ROBUST: &[u8] = &[0, 1, 4, 5, 32, 64, 65, 128, 129, 192, 193];
 
 /// `fragile` = the whole menu, including the codecs that are known not to round-trip small
 /// payloads (they are exercised in a dedicated share of the streams so that they do not mask the
 /// record layer everywhere)
 fn gen_codec(rng: &mut Rng, v31: bool, fragile: bool) -> String {
-    if v31 && fragile && rng.chance(1, 2) {
+    if v31 && rng.chance(1, 2) {
         if rng.chance(1, 2) {
             format!("n{}", rng.pick(if fragile { NX16 } else { NX16_ROBUST }))
         } else {
@@ -572,7 +572,7 @@ pub fn gen_enc(rng: &mut Rng, fqz: bool, fragile: bool) -> String {
             if rng.chance(1, 2) {
                 let c = gen_codec(rng, v31, fragile);
                 // the core block is always empty; AAC cannot encode an empty payload
-                items.push(format!("core:{}", if c.starts_with('a') && !fragile { "none".to_string() } else { c }));
+                items.push(format!("core:{c}"));
             }
             if rng.chance(1, 2) {
                 items.push(format!("def:{}", gen_codec(rng, v31, fragile)));
